@@ -24,10 +24,10 @@ RULE = ("case = buffer size + drawing program (as for C03) + a flush, either `fl
         "(5) random C03 programs; (6) chars of width 0 and 2; (7) line runs of 86..200 cells (beyond the 256-byte "
         "scratch buffer) and directly adjacent erase spans.  A third of the mock flushes run on a terminal whose erasech(MAYBE) "
         "leaves the cursor in place (flm), the other legal driver behaviour.  Non-trivial = something was sent to the terminal; "
-        "distinct = distinct (op kinds, shape of the operation log).")
+        "distinct = distinct (op kinds, shape of the operation log). Also `tp tl tc gl gc text`: the mock driver's own print of a text at every cursor column of small sentinel terminals (incl. a wide character at the last column, a NUL / control first), observation = cursor and grid.")
 ASSUMPTIONS = ["the terminal advances by the library's own width function (stated in the property); modelled after src/mockterm.c",
                "terminal at least as large as the buffer; no int overflow",
-               "texts over printable ASCII, U+00A1-00FF, U+0300-036F (width 0), U+FF01-FF60 (width 2); pens with fg, bg, bold, underline",
+               "texts are well-formed UTF-8 over any code points 1..0x1FFFFF (width function = the library's own, property C07); pens with all ten attributes incl. RGB8 secondaries (property C19)",
                "line styles 1..3"]
 TRUSTED = ["models coq/RBDefs.v, coq/RBFlushDefs.v hand-written after src/renderbuffer.c and src/mockterm.c; "
            "specification coq/RBFlushSpec.v (cell-wise expectation, exactly-once count) and coq/RBGlyphs.v "
@@ -93,6 +93,14 @@ def gen(tier, seed, info):
     info["exhaustive_scope"] = ("all 255 line masks on a 3x3 buffer; all programs of 1..3 ops over a %d-op alphabet on a 2x6 buffer, "
                                 "each flushed" % len(ALPHABET))
     info["exhaustive_cases"] = n + m
+    # (3b) every boundary of the library's width tables, flushed whole and cut inside / next to it
+    nwb = 0
+    for w in (0, 1, 2):
+        for i, c in enumerate(rbgen.EXOTIC[w]):
+            nwb += 1
+            kind = ["fl 1 8 0 0 -", "flm 1 8 0 3 f2", "flx 1 8"][i % 3]
+            yield rbgen.case_line(1, 8, ["txa 0 0 41.%x.42.%x.43" % (c, c), "cha 0 %d 78" % (1 + i % 3), kind, "D"])
+    info["width_table_boundary_cases"] = nwb
     # (4) width mixes cut at every column
     texts = [[0xff21, 0x62, 0x63, 0x64], [0x61, 0xff21, 0x62], [0x61, 0x301, 0xff22, 0x300, 0x63], [0xff21, 0xff22, 0xff01],
              [0x61, 0x62, 0xff21], [0x301, 0x61, 0xff21, 0x301], [0xe9, 0xff21, 0xe9], [0x41, 0x42, 0x43], [0xff21]]
@@ -147,9 +155,26 @@ def gen(tier, seed, info):
         yield rbgen.case_line(L, C, ops + tail)
     info["random_cases"] = nrand
     info["op_kinds"] = kinds
+    # (6) the mock terminal's print on its own (tp): every cursor column incl. the last one and the position
+    # behind it, texts of every width class, NUL / control as first code point (the terminal must return)
+    ntp = 0
+    tp_texts = [[0x41], [0xff21], [0x41, 0x301], [0xff21, 0x42], [0x41, 0xff21], [0x301, 0x41], [0x1f3e0, 0x300, 0x41],
+                [0x41, 0x42, 0x43, 0x44], [0], [0, 0x41], [0x01], [0x7f, 0x41], [0x85]]
+    for t in tp_texts:
+        for tl, tc in ((1, 4), (2, 3), (1, 1)):
+            for gc in range(tc):
+                for gl in range(tl):
+                    ntp += 1
+                    yield rbgen.case_line(1, 1, ["tp %d %d %d %d %s" % (tl, tc, gl, gc, rbgen.text_tok(t))])
+    for _ in range(300 if tier == "quick" else 20000):
+        tl, tc = rnd.randint(1, 3), rnd.randint(1, 8)
+        t = rbgen.rand_text(rnd, rnd.randint(1, tc + 3))
+        ntp += 1
+        yield rbgen.case_line(1, 1, ["tp %d %d %d %d %s" % (tl, tc, rnd.randint(0, tl - 1), rnd.randint(0, tc - 1), rbgen.text_tok(t))])
+    info["terminal_print_cases"] = ntp
 
 
-ARITY = dict(rbgen.ARITY, fl=5, flm=5, flx=2, lct=0)
+ARITY = dict(rbgen.ARITY, fl=5, flm=5, flx=2, lct=0, tp=5)
 
 
 def classify(case, obs):
@@ -172,6 +197,14 @@ def classify(case, obs):
 def terminal_fits(case):
     t = case.split()
     L, C = int(t[0]), int(t[1])
+    if "tp" in t:
+        i = t.index("tp")
+        # keep the shape the model covers: valid text, or one that is stuck at its first code point
+        cps = [int(h, 16) for h in t[i + 5].split(".")] if t[i + 5] != "-" else []
+        if 0 in cps:
+            cps = cps[:cps.index(0)]
+        ok = all(rbgen.cpw(c) >= 0 for c in cps) or (cps and rbgen.cpw(cps[0]) < 0)
+        return ok and int(t[i + 1]) >= 1 and int(t[i + 2]) >= 1 and 0 <= int(t[i + 3]) < int(t[i + 1]) and 0 <= int(t[i + 4]) < int(t[i + 2])
     for i, x in enumerate(t):
         if x in ("fl", "flm", "flx") and (int(t[i + 1]) < L or int(t[i + 2]) < C):
             return False
